@@ -183,6 +183,7 @@ func RunProperty(id string, p *ir.Program, r *report.R) bool {
 		errorIdentity(p, r, files)
 		lockPairing(p, r, files)
 		guardedBy(p, r, files)
+		fieldCoverageRule(p, r, files)
 	}
 	return true
 }
